@@ -65,7 +65,7 @@ pub open spec fn decommit_root(c: &Commitment, queries: Seq<(nat, nat)>, auth: S
     root_spec(shifted(queries, c.config.height@), 0, c.config.n_verifier_friendly_commitment_layers@, auth, 0)
 }
 
-//@repo crates/commitment/src/vector/decommit.rs fn vector_commitment_decommit props=C04
+//@repo crates/commitment/src/vector/decommit.rs fn vector_commitment_decommit props=C04 rules=H_slice_map_collect
 pub fn vector_commitment_decommit(
     commitment: Commitment,
     queries: &[Query],
@@ -76,18 +76,23 @@ pub fn vector_commitment_decommit(
 {
     let shift = Felt::TWO.pow_felt(&commitment.config.height);
     // Shifts the query indices by shift=2**height, to convert index representation to heap-like.
-    let shifted_queries: Vec<QueryWithDepth> = queries
-        .iter()
-        .map(|q/*+*/: &Query/*-*/| /*+*/-> (o: QueryWithDepth)
+    let shifted_queries: Vec<QueryWithDepth> = crate::hoist::slice_map(queries, |q/*+*/: &Query/*-*/| /*+*/-> (o: QueryWithDepth)
             ensures o.index@ == fadd(q.index@, shift@), o.value == q.value, o.depth == commitment.config.height
         {/*-*/ QueryWithDepth {
             index: q.index + shift,
             value: q.value,
             depth: commitment.config.height,
-        } /*+*/}/*-*/)
-        .collect();
+        } /*+*/}/*-*/);
     proof {
-        assert(queue_view(shifted_queries@) =~= shifted(query_pairs(queries@), commitment.config.height@));
+        let a = queue_view(shifted_queries@);
+        let b = shifted(query_pairs(queries@), commitment.config.height@);
+        assert(a.len() == b.len());
+        assert forall|i: int| 0 <= i < a.len() implies a[i] == b[i] by {
+            assert(a[i] == qd_view(shifted_queries@[i]));
+            assert(query_pairs(queries@)[i] == (queries@[i].index@, queries@[i].value@));
+            assert(b[i] == QD { index: fadd(queries@[i].index@, pow_mod(2, commitment.config.height@)), value: queries@[i].value@, depth: commitment.config.height@ });
+        }
+        assert(a =~= b);
     }
 
     let expected_commitment = compute_root_from_queries(
